@@ -4,6 +4,10 @@ From Coq Require Import ZifyBool ZifyNat.
 Local Open Scope Z_scope.
 Ltac Zify.zify_post_hook ::= Z.to_euclidean_division_equations.
 
+(* the table generator found every constant in the shape it expects (see harness/gens/c13.py) *)
+Lemma gen_c13_shape : gen_c13_shape_ok = true.
+Proof. reflexivity. Qed.
+
 (* ---- sums ---------------------------------------------------------------------------------- *)
 Lemma zsum_app a b : zsum (a ++ b) = zsum a + zsum b.
 Proof. induction a as [|x a IH]; cbn [zsum fold_right app] in *; [reflexivity|]. unfold zsum in *. lia. Qed.
